@@ -585,3 +585,88 @@ def r29(text):
         text = text[:rs] + rep + text[c + 1:]
         n += 1
     return text, n
+
+
+@rule("R30", "`X.strip_prefix(P)` on byte slices -> `slice_strip_prefix(X, P)`: a definitional implementation in the prelude "
+             "(compares the prefix, returns the rest) that is itself verified against the specification.")
+def r30(text):
+    n = 0
+    while True:
+        m = re.search(r"\b(\w+)\.strip_prefix\(", text)
+        if not m:
+            break
+        o = m.end() - 1
+        toks = tokenize(text[o:])
+        c = o + toks[match_close(toks, 0)].start
+        text = text[:m.start()] + "slice_strip_prefix(%s, %s)" % (m.group(1), text[o + 1:c]) + text[c + 1:]
+        n += 1
+    return text, n
+
+
+@rule("R26", "`S.iter().position(|&b| b == C)` -> `slice_position(&S, C)` (or `slice_position(slice_from(X, k), C)` for "
+             "`S = X[k..]`): a verified definitional implementation (first index holding C).")
+def r26(text):
+    n = 0
+    while True:
+        m = re.search(r"\.\s*iter\(\)\s*\.\s*position\(\s*\|&b\|\s*b\s*==\s*(b'(?:[^'\\]|\\.)')\s*\)", text)
+        if not m:
+            break
+        rs = _receiver_start(text, m.start())
+        recv = text[rs:m.start()].strip()
+        mm = re.fullmatch(r"([\w\.]+)\[(\w+)\.\.\]", recv)
+        arg = "slice_from(%s, %s)" % (mm.group(1), mm.group(2)) if mm else "&" + recv
+        rep = "slice_position(%s, %s)" % (arg, m.group(1))
+        old = text[rs:m.end()]
+        rep = rep + "\n" * max(0, old.count("\n") - rep.count("\n"))
+        text = text[:rs] + rep + text[m.end():]
+        n += 1
+    return text, n
+
+
+@rule("R27", "Definition of Option::map with a closure: `X.map(|p| E)` -> `match X { Some(p) => Some(E), None => None }`.")
+def r27(text):
+    n = 0
+    while True:
+        m = re.search(r"\.\s*map\(\s*\|\s*(\w+)\s*\|", text)
+        if not m:
+            break
+        o = text.index("(", m.start())
+        toks = tokenize(text[o:])
+        c = o + toks[match_close(toks, 0)].start
+        inner = text[m.end():c].strip()
+        rs = _receiver_start(text, m.start())
+        recv = text[rs:m.start()].rstrip()
+        rep = "(match %s { Some(%s) => Some(%s), None => None })" % (recv, m.group(1), inner)
+        old = text[rs:c + 1]
+        rep = rep + "\n" * max(0, old.count("\n") - rep.count("\n"))
+        text = text[:rs] + rep + text[c + 1:]
+        n += 1
+    return text, n
+
+
+@rule("R31", "`S.split_at(mid)` -> `slice_split_at(S, mid)`: verified definitional implementation whose precondition "
+             "`mid <= len` is the panic condition of the std function.")
+def r31(text):
+    n = 0
+    while True:
+        m = re.search(r"\b([\w\.]+)\.split_at\(", text)
+        if not m:
+            break
+        o = m.end() - 1
+        toks = tokenize(text[o:])
+        c = o + toks[match_close(toks, 0)].start
+        text = text[:m.start()] + "slice_split_at(%s, %s)" % (m.group(1), text[o + 1:c]) + text[c + 1:]
+        n += 1
+    return text, n
+
+
+@rule("R8b", "Definition of head/tail slice patterns: `if let [C, r @ ..] = v {` -> `if v.len() >= 1 && v[0] == C { let r = "
+             "slice_from(v, 1);`; `while let [A | B, t @ ..] = v {` -> `while v.len() >= 1 && (v[0] == A || v[0] == B) { "
+             "let t = slice_from(v, 1);`.")
+def r8b(text):
+    lit = r"b'(?:[^'\\]|\\.)'"
+    t, n1 = re.subn(r"if\s+let\s+\[(%s),\s*(\w+)\s*@\s*\.\.\]\s*=\s*(\w+)\s*\{" % lit,
+                    r"if \3.len() >= 1 && \3[0] == \1 { let \2 = slice_from(\3, 1);", text)
+    t, n2 = re.subn(r"while\s+let\s+\[(%s)\s*\|\s*(%s),\s*(\w+)\s*@\s*\.\.\]\s*=\s*(\w+)\s*\{" % (lit, lit),
+                    r"while \4.len() >= 1 && (\4[0] == \1 || \4[0] == \2) { let \3 = slice_from(\4, 1);", t)
+    return t, n1 + n2
